@@ -94,7 +94,7 @@ def model_render(event_lists):
     for evs in event_lists:
         ms = [m for m in (coq_msg(e) for e in evs) if m]
         exprs.append("run_render [" + ";".join("(" + m + ")" for m in ms) + "]")
-    return vlib.coq_eval_sharded(PRE, exprs, shard=40, name="c20render")
+    return vlib.coq_eval_sharded(PRE, exprs, shard=max(4, len(exprs) // vlib.NPROC + 1), name="c20render")
 
 
 def model_inputs(raws):
@@ -461,7 +461,7 @@ def run(ctx):
     okb, logb = ctx.build(["theories/Cli/EscapeRun.vo"])
     if not okb:
         raise RuntimeError("model does not build: " + logb[-1500:])
-    n = 220 if ctx.quick() else 2500
+    n = 160 if ctx.quick() else 2500
     fails, mism, stats = check_play(ctx, rink, pdrive, facts, n)
     cfails, cstats = check_compile(ctx, rink, pdrive, 30 if ctx.quick() else 300)
     fails += cfails
